@@ -332,7 +332,7 @@ def setup(sc, d, perturb=None):
 
 def apply_perturbation(d, p):
     """stale-plan perturbations between `plan` and `apply`: p = (kind, relpath)"""
-    kind, rel = p
+    kind, rel = p[0], p[1]
     path = os.path.join(d, rel)
 
     def put(data):
@@ -344,7 +344,12 @@ def apply_perturbation(d, p):
             fh.write(data)
         os.chmod(tmp, mode)
         os.replace(tmp, path)
-    if kind == "edited":
+    if kind == "line_tail":
+        data = open(path, "rb").read()
+        i = data.find(b"\n", p[2])
+        i = len(data) if i < 0 else i
+        put(data[:i] + b" // reviewed" + data[i:])
+    elif kind == "edited":
         put(b"INSERTED " + open(path, "rb").read())
     elif kind == "truncated":
         put(b"f")
